@@ -73,9 +73,9 @@ claimed = {
          "Driver.distributeWGToGPUs returns a non-decreasing range table starting at 0 and ending at or beyond the number of work-groups, and the per-GPU filter closure accepts exactly "
          "the row-major flattened ids of its range. Lane-id initialisation is under contract in both modes (emu.ComputeUnit.initWfRegs, cu.WfDispatcherImpl.initRegisters): all 64 lanes of a wavefront are visited and lane l receives the coordinates (x, y, z) with flat id = (z*SY + y)*SX + x, 0 <= x < SX, 0 <= y < SY; "
          "the work-group counts written to the scalar registers are the ceiling quotients. With a work-group filter, countWG is a complete scan: every coordinate of the grid is offered to the filter exactly once, the count goes up by one exactly for the accepted ones and stays within the grid size "
-         "(that it equals the number NextWG later produces additionally needs the filter to answer the same both times; the driver's filter is a pure range test under contract). Not yet under contract: NextWG/Skip with a filter, spawnWorkItems/formWavefronts (functional)."),
-   note=(TB + "Assumed: fewer than 2^31 work-groups per dispatch, CU counts <= 65536, at most 4096 unified GPUs; NewWorkGroup and formWavefronts enter NextWG through trusted frame-only contracts; "
-         "the explicit guard 'not all wg allocated' is kept as a run-time check (its unreachability needs a prefix-sum argument). Suspect not yet decided: formWavefronts for partial work-groups whose row pitch does not divide 64 (DESIGN.md). The register-initialisation obligations are shared with C02 (same findings: V5 packing repaired, two SGPR-layout findings recorded)."),
+         "(that it equals the number NextWG later produces additionally needs the filter to answer the same both times; the driver's filter is a pure range test under contract). formWavefronts places every work-item in a wavefront whose first flat id is the 64-aligned base of the item's own flat id (lane = flat id - FirstWiFlatID in 0..63), and records each started wavefront with the kernel's code object and packet. Not yet under contract: NextWG/Skip with a filter, spawnWorkItems (functional), the initial EXEC mask bits."),
+   note=(TB + "Assumed: fewer than 2^31 work-groups per dispatch, CU counts <= 65536, at most 4096 unified GPUs; NewWorkGroup enters NextWG through a trusted frame-only contract, formWavefronts through its (assumed) modifies clause; "
+         "the explicit guard 'not all wg allocated' is kept as a run-time check (its unreachability needs a prefix-sum argument). formWavefronts is verified except for its frame (trustframe) and under the site assumption that flat ids are non-negative and items belong to the work-group; the suspect of the design phase (partial work-groups whose row pitch does not divide 64) was confirmed on the real code and repaired. The register-initialisation obligations are shared with C02 (same findings: V5 packing repaired, two SGPR-layout findings recorded)."),
    design="5 (C08)", technique="deductive verification: WP-style VC generation over go/ssa + SMT (integer mode with overflow obligations, loop invariants)"),
  "C06": dict(
    text=("For the integer vector handlers of the two ALUs that are under a per-lane ISA contract (VOP2, VOP1 mov/not/bfrev, VOPC and VOP3a compares, VOP3a arithmetic, VOP3b carry forms; see C03), lane independence and EXEC obedience follow from the contract itself: "
@@ -102,9 +102,10 @@ claimed = {
          "[initialAddress, initialAddress+storageSize) in ascending order (count = storageSize >> log2PageSize, each address initialAddress + k*pageSize), pop returns and removes the head, "
          "push appends at the back, nothing else changes. memoryAllocatorImpl.removePage (Free/RemovePage) is proved to drop the page from the allocator's live-page map. "
          "allocatePages records every page it creates (also for a unified multi-GPU device, whose pages come from member GPUs) on the device whose physical range contains the page, with the requested process, size and consecutive virtual addresses (site obligations at the page-table insert). "
+         "Driver.FreeMemory marks the buffer freed and hands the allocator every page-aligned offset below the buffer's recorded size (so that all of its pages are unmapped and returned). "
          "Remap/Distribute/migration, the buddy allocator and the virtual-address bookkeeping are not yet under contract."),
    note=(TB + "Assumed: storage sizes are multiples of the page size and below 2^48; the akita page table is an external component (extern declarations); deviceIDByPAddr enters through a trusted contract "
-         "(map iteration is not modelled). One genuine defect repaired (stale live-page entry after Free). Observed, not decided by a check: Driver.FreeMemory frees only the first page of a multi-page buffer."),
+         "(map iteration is not modelled). Three genuine defects repaired (stale live-page entry after Free; removeFreedBuffers; Driver.FreeMemory freed only the first page of a multi-page buffer)."),
    design="5 (C10)", technique="deductive verification: WP-style VC generation over go/ssa + SMT (queue view of the free list, loop invariant with page-size case split)"),
  "C14": dict(
    text=("The two wait guards of the timing scheduler are under contract for every wavefront state: evalSWaitCnt completes exactly when both outstanding-access counters are at or below the counts the instruction asks for, "
@@ -141,9 +142,10 @@ claimed = {
    text=("Under contract: memRangeOverlap (the interval-intersection predicate over the full uint64 domain); needFlushing (true exactly when some buffer with dirty L2 data overlaps the copy range, any number of buffers); "
          "the page-split loops of the default H2D and D2H paths and of the direct-storage H2D path: the chunks tile the source (offset + sizeLeft = length, address = base + offset in every iteration) and the site obligation at "
          "each hand-over proves that the chunk is source[offset : offset+n] (resp. the destination window), goes to page.PAddr + (addr - page.VAddr) for the page looked up for that very address, and never crosses the end of that page; "
-         "the H2D path keeps the requests already awaiting transmission. The DMA engine's completion bookkeeping and the direct-storage D2H path are not yet under contract."),
+         "the H2D path keeps the requests already awaiting transmission. The direct-storage D2H path is under contract too (chunks, per-chunk page lookup, tiling) and carries the obligation that the storage is read directly only when no overlapping buffer is marked as holding dirty L2 data; that obligation fails on the current code and is a recorded finding (the direct path never flushes). "
+         "The DMA engine's completion bookkeeping is under contract for data placement only."),
    note=(TB + "The page table, the allocator behind its interface, message constructors, bytes/binary and tracing are external (extern declarations: frame-only, results unconstrained; constructors return fresh objects). "
-         "Wrap-around of address + size is modelled as the machine computes it."),
+         "Wrap-around of address + size is modelled as the machine computes it. One known finding (direct-storage copies ignore dirty caches; demonstrated at driver level in the thorough tier: the driver's own needFlushing rule says flush, the direct path completes without one)."),
    design="5 (C11)", technique="deductive verification: WP-style VC generation over go/ssa + SMT (loop invariants and call-site obligations)"),
 
 
